@@ -38,9 +38,19 @@ type Node struct {
 	Content     []byte  // primitive content
 	Children    []*Node // constructed content
 
+	// Raw, when non-nil, is emitted verbatim instead of a TLV (mutation engine only).
+	Raw []byte
+
+	// Inner, when non-nil on a primitive node, is a nested BER payload: the
+	// content is the concatenated encoding of these nodes (an OCTET STRING
+	// carrying a control value, for instance).
+	Inner []*Node
+
 	// LenOverride, when non-nil, is emitted instead of the correct length
 	// octets (used only by the mutation engine).
 	LenOverride []byte
+	// Trailer is appended after the content (EOC octets for the indefinite form).
+	Trailer []byte
 }
 
 // Clone returns a deep copy.
@@ -57,6 +67,18 @@ func (n *Node) Clone() *Node {
 	}
 	for _, ch := range n.Children {
 		c.Children = append(c.Children, ch.Clone())
+	}
+	if n.Inner != nil {
+		c.Inner = []*Node{}
+		for _, ch := range n.Inner {
+			c.Inner = append(c.Inner, ch.Clone())
+		}
+	}
+	if n.Trailer != nil {
+		c.Trailer = append([]byte{}, n.Trailer...)
+	}
+	if n.Raw != nil {
+		c.Raw = append([]byte{}, n.Raw...)
 	}
 	return c
 }
@@ -99,9 +121,16 @@ func EncodeLength(n int) []byte {
 
 // Encode serialises the node (children recursively).
 func (n *Node) Encode() []byte {
+	if n.Raw != nil {
+		return n.Raw
+	}
 	var body []byte
 	if n.Constructed {
 		for _, c := range n.Children {
+			body = append(body, c.Encode()...)
+		}
+	} else if n.Inner != nil {
+		for _, c := range n.Inner {
 			body = append(body, c.Encode()...)
 		}
 	} else {
@@ -113,7 +142,8 @@ func (n *Node) Encode() []byte {
 	} else {
 		out = append(out, EncodeLength(len(body))...)
 	}
-	return append(out, body...)
+	out = append(out, body...)
+	return append(out, n.Trailer...)
 }
 
 // Constructors.
@@ -127,6 +157,14 @@ func Prim(class, tag int, content []byte) *Node {
 
 func Cons(class, tag int, children ...*Node) *Node {
 	return &Node{Class: class, Constructed: true, Tag: tag, Children: children}
+}
+
+// Wrap is an OCTET STRING whose content is the encoding of inner.
+func Wrap(inner ...*Node) *Node {
+	if inner == nil {
+		inner = []*Node{}
+	}
+	return &Node{Class: Universal, Tag: TagOctetString, Inner: inner}
 }
 
 func Seq(children ...*Node) *Node { return Cons(Universal, TagSequence, children...) }
